@@ -306,11 +306,78 @@ def build_sram(memw, depth, busword, paging, page, read_only, K):
     return h
 
 
+class PagedSRAMMon(Mon):
+    """a CSR memory window LARGER than one page (and not a whole number of pages): the window shows page P of the memory, P being the value
+    of the window's own page register (a CSRStorage that lives in a bank next to it).  Reference: access at window offset x <-> memory
+    word P*page_words + x."""
+
+    def __init__(self, depth, paging, busword=8, loc=3):
+        from litex.soc.interconnect import csr_bus
+        self.bus = bus = csr_bus.Interface(data_width=busword, address_width=14)
+        mem = Memory(busword, depth, init=[(i * 0x9d + 3) & (2**busword - 1) for i in range(depth)], name="csrmem")
+        self.mem = mem
+        b1 = csr_bus.Interface(data_width=busword, address_width=14)
+        b2 = csr_bus.Interface(data_width=busword, address_width=14)
+        self.submodules.dut = dut = csr_bus.SRAM(mem, loc, bus=b1, paging=paging)
+        if dut._page is None:
+            raise ValueError("window fits one page")
+        self.submodules.bank = csr_bus.CSRBank(dut.get_csrs(), address=loc - 1, bus=b2, paging=paging)
+        self.submodules.ic = csr_bus.Interconnect(bus, [b1, b2])
+        pw = paging // 4                         # CSR words per page
+        pbits = log2_int(pw)
+        npages = (depth + pw - 1) // pw
+        pgw = max(bits_for(npages - 1), 1)
+        page_of = bus.adr[pbits:]
+        off = bus.adr[:pbits]
+        shp = self.reg(pgw, "sh_page")
+        self.sync += If(bus.we & (page_of == loc - 1) & (off == 0), shp.eq(bus.dat_w[:pgw]))
+        self.W = Signal(max=max(depth, 2), name_override="W")
+        self.asm = Signal(name_override="asm_bus")
+        target = Signal(pgw + pbits)
+        self.comb += target.eq(shp * pw + off)
+        sel = Signal(name_override="ref_sel")
+        self.comb += sel.eq(page_of == loc)
+        # software stays inside the memory (a word index beyond a non-power-of-two depth is clamped by the simulator and ignored by the
+        # synthesised memory: the listed C01 divergence, not the subject here)
+        self.comb += self.asm.eq(~(bus.we & bus.re) & (self.W < depth) & (~(sel & (bus.we | bus.re)) | (target < depth)))
+        self.sh = sh = self.reg(busword, "sh_word")
+        self.sync += If(sel & bus.we & (target == self.W), sh.eq(bus.dat_w))
+        p_chk = self.reg(1, "p_chk"); p_exp = self.reg(busword, "p_exp")
+        self.sync += [p_chk.eq(sel & bus.re & (target == self.W)), p_exp.eq(sh)]
+        self.bad_read = Signal(name_override="bad_read")
+        self.comb += self.bad_read.eq(p_chk & (bus.dat_r != p_exp))
+        self.bad_page = Signal(name_override="bad_page_register")
+        self.comb += self.bad_page.eq(dut._page.storage != shp)
+        wrote = self.reg(1, "wrote")
+        self.sync += If(sel & bus.we & (target == self.W) & (shp != 0), wrote.eq(1))
+        self.w = Signal(name_override="w_second_page_written_and_read")
+        self.comb += self.w.eq(p_chk & wrote & (shp != 0) & (bus.dat_r == p_exp))
+        self.free = [bus.adr, bus.we, bus.re, bus.dat_w]
+        self.showl = [bus.adr, bus.we, bus.re, bus.dat_w, bus.dat_r, shp, sh]
+
+
+def build_paged_sram(depth, paging, loc, K):
+    m = PagedSRAMMon(depth, paging, loc=loc)
+    h = H("csrsram_paged_m8x%d_page%d_loc%d" % (depth, paging // 4, loc), m, m.free, rigid=[m.W], assume=[m.asm],
+          bad=dict(window_shows_the_selected_page=m.bad_read, page_register=m.bad_page), witness=dict(second_page_written_and_read=m.w), K=K,
+          funcs=["litex.soc.interconnect.csr_bus.SRAM", "litex.soc.interconnect.csr_bus.CSRBank", "litex.soc.interconnect.csr_bus.Interconnect"],
+          cfg=dict(depth=depth, page_words=paging // 4, location=loc), show=m.showl, vcycles=24)
+    import z3
+
+    def extra(U):
+        arr = U.tr.mem_arrays[m.mem]
+        Wv = U.frames[0][m.W]
+        return [z3.Implies(Wv == i, U.frames[0][m.sh] == U.frames[0][ws]) for i, ws in enumerate(arr)]
+    h.extra = extra
+    h.init_free = [m.sh]
+    return h
+
+
 # --------------------------------------------------------------------------------------------------
 # two banks + a memory behind CSRBankArray / Interconnect: accesses to one object never disturb another
 
 class ArrayMon(Mon):
-    def __init__(self, busword, shared):
+    def __init__(self, busword, shared, aw=14, pbpage=5):
         from litex.soc.interconnect import csr, csr_bus
 
         class PerA(Module, csr.AutoCSR):
@@ -332,11 +399,11 @@ class ArrayMon(Mon):
                 self.submodules.pa = PerA()
                 self.submodules.pb = PerB()
         self.submodules.src = src = Src()
-        amap = {("pa", False): 2, ("pb", False): 5, ("pb", True): 7}
-        self.submodules.arr = arr = csr_bus.CSRBankArray(src, lambda name, mem: amap[(name, mem is not None)], data_width=busword, address_width=14)
-        self.bus = bus = csr_bus.Interface(data_width=busword, address_width=14)
+        amap = {("pa", False): 2, ("pb", False): pbpage, ("pb", True): pbpage + 2}
+        self.submodules.arr = arr = csr_bus.CSRBankArray(src, lambda name, mem: amap[(name, mem is not None)], data_width=busword, address_width=aw)
+        self.bus = bus = csr_bus.Interface(data_width=busword, address_width=aw)
         if shared:
-            self.bus2 = bus2 = csr_bus.Interface(data_width=busword, address_width=14)
+            self.bus2 = bus2 = csr_bus.Interface(data_width=busword, address_width=aw)
             self.submodules.ic = csr_bus.InterconnectShared([bus, bus2], arr.get_buses())
         else:
             self.submodules.ic = csr_bus.Interconnect(bus, arr.get_buses())
@@ -358,7 +425,7 @@ class ArrayMon(Mon):
         for j, (i, lo, hi) in enumerate(w9):
             st.append(If(bus.we & (page == 2) & (idx == j), sh_ctl[lo:hi].eq(bus.dat_w[:hi - lo])))
         nctl = len(w9)
-        st.append(If(bus.we & (page == 5) & (idx == 0), sh_cfg.eq(bus.dat_w[:8])))
+        st.append(If(bus.we & (page == pbpage) & (idx == 0), sh_cfg.eq(bus.dat_w[:8])))
         self.sync += st
         self.bad_ctl = Signal(name_override="bad_ctl"); self.bad_cfg = Signal(name_override="bad_cfg")
         self.comb += [self.bad_ctl.eq(pa.ctl.storage != sh_ctl), self.bad_cfg.eq(pb.cfg.storage != sh_cfg)]
@@ -366,9 +433,9 @@ class ArrayMon(Mon):
         exp = Signal(busword)
         cases_a = {j: exp.eq(pa.ctl.storage[lo:hi]) for j, (i, lo, hi) in enumerate(w9)}
         cases_a[nctl] = exp.eq(pa.sts.status)
-        self.comb += [If(page == 2, Case(idx, cases_a)), If((page == 5) & (idx == 0), exp.eq(pb.cfg.storage))]
+        self.comb += [If(page == 2, Case(idx, cases_a)), If((page == pbpage) & (idx == 0), exp.eq(pb.cfg.storage))]
         p_exp = self.reg(busword, "p_exp"); p_chk = self.reg(1, "p_chk"); started = self.reg(1, "started")
-        self.sync += [p_exp.eq(exp), p_chk.eq(bus.re & ((page == 2) | (page == 5)) | ((page != 2) & (page != 5) & (page != 7))), started.eq(1)]
+        self.sync += [p_exp.eq(exp), p_chk.eq(bus.re & ((page == 2) | (page == pbpage)) | ((page != 2) & (page != pbpage) & (page != pbpage + 2))), started.eq(1)]
         self.bad_datr = Signal(name_override="bad_datr")
         self.comb += self.bad_datr.eq(started & p_chk & (bus.dat_r != p_exp))
         self.w = Signal(name_override="w_both_written")
@@ -376,13 +443,13 @@ class ArrayMon(Mon):
         self.showl = [bus.adr, bus.we, bus.re, bus.dat_w, bus.dat_r, pa.ctl.storage, pb.cfg.storage]
 
 
-def build_array(busword, shared, K):
-    m = ArrayMon(busword, shared)
-    return H("bankarray_b%d_%s" % (busword, "shared" if shared else "p2p"), m, m.free, assume=[m.asm],
+def build_array(busword, shared, K, aw=14, pbpage=5):
+    m = ArrayMon(busword, shared, aw, pbpage)
+    return H("bankarray_b%d_%s%s" % (busword, "shared" if shared else "p2p", "" if aw == 14 else "_aw%d" % aw), m, m.free, assume=[m.asm],
              bad=dict(ctl=m.bad_ctl, cfg=m.bad_cfg, dat_r=m.bad_datr), witness=dict(both_written_and_read=m.w), K=K,
              funcs=FUNCS + ["litex.soc.interconnect.csr_bus.CSRBankArray", "litex.soc.interconnect.csr_bus.Interconnect", "litex.soc.interconnect.csr_bus.InterconnectShared",
                             "litex.soc.interconnect.csr.AutoCSR/_make_gatherer", "litex.soc.interconnect.csr_bus.SRAM"],
-             cfg=dict(busword=busword, shared=shared), show=m.showl, vcycles=24)
+             cfg=dict(busword=busword, shared=shared, address_width=aw, bank_pages=[2, pbpage, pbpage + 2]), show=m.showl, vcycles=24)
 
 
 def jobs(tier):
@@ -406,7 +473,13 @@ def jobs(tier):
         srams += [(8, 16, 8, True), (16, 8, 8, False), (32, 4, 32, True)]
     for (memw, depth, bw, ro) in srams:
         js.append(Job("csrsram_m%dx%d_b%d%s" % (memw, depth, bw, "_ro" if ro else ""), build_sram, dict(memw=memw, depth=depth, busword=bw, paging=0x800, page=4, read_only=ro, K=K), cost=3))
+    # memory windows larger than a page and not a whole number of pages (12 and 20 words with 8-word pages), at an odd and an even location
+    js.append(Job("csrsram_paged_m8x12_loc3", build_paged_sram, dict(depth=12, paging=0x20, loc=3, K=K + 2), cost=3))
+    js.append(Job("csrsram_paged_m8x20_loc6", build_paged_sram, dict(depth=20, paging=0x20, loc=6, K=K + 2), cost=3))
     js.append(Job("bankarray_b8_p2p", build_array, dict(busword=8, shared=False, K=K), cost=3))
+    # a CSR bus wider than the default 14 address bits, a bank above location 31 (word address >= 0x4000)
+    js.append(Job("bankarray_b32_shared_aw15", build_array, dict(busword=32, shared=True, K=K, aw=15, pbpage=37), cost=3))
+    js.append(Job("bankarray_b8_p2p_aw15", build_array, dict(busword=8, shared=False, K=K, aw=15, pbpage=37), cost=3))
     if tier == "thorough":
         js.append(Job("bankarray_b32_shared", build_array, dict(busword=32, shared=True, K=K), cost=3))
     js.append(Job("csr_placement_k3", job_placement, dict(k=3, nmax=4), cost=5))
